@@ -1,5 +1,7 @@
 import Srctools.Gen.VmfKeys
 import Srctools.Proofs.C06
+import Srctools.Proofs.C06Text
+import Srctools.Props.C01
 /-!
 # C06 — VMF export/parse round trip is a fixed point and loses no map content
 
@@ -96,6 +98,80 @@ theorem C06_project_export (o : ExportOpts) (m : VMap) (h : MapOK1 m)
 /-- a displacement written twice: the projection changes nothing the writer looks at -/
 theorem C06_displacement_fixed (mb : Bool) (d : Disp) : exportDisp mb (projDisp mb d) = exportDisp mb d :=
   exportDisp_projDisp mb d
+
+/-! ## Text level
+
+`exportText o m` is the TEXT `VMF.export()` returns (model of every class's own f-string writer:
+indentation, unquoted block headers, which fields go through `escape_text` and in which mode —
+compared character for character with the implementation on every run).  `C01.parse` is the model
+of `Keyvalues.parse` over the tokenizer model of C02/C03, with the tables of the current source. -/
+
+mutual
+/-- a parsed C01 keyvalues tree as a C06 tree -/
+def unconvKV : C01.KV → KV
+  | .leaf n v => .leaf n v
+  | .block n cs => .block n (unconvList cs)
+def unconvList : List C01.KV → List KV
+  | [] => []
+  | t :: ts => unconvKV t :: unconvList ts
+end
+
+mutual
+theorem unconv_conv (t : KV) : unconvKV (convKV t) = t := by
+  match t with
+  | .leaf n v => rfl
+  | .block n cs => simp [convKV, unconvKV, unconvList_conv cs]
+theorem unconvList_conv (ts : List KV) : unconvList (convList ts) = ts := by
+  match ts with
+  | [] => rfl
+  | t :: ts => simp [convList, unconvList, unconv_conv t, unconvList_conv ts]
+end
+
+/-- `VMF.parse(Keyvalues.parse(text), preserve_ids)` -/
+def parseVmfText (po : C01.ParseOpts) (fold : Char → List Char) (preserve : Bool) (text : Str) : Except Err VMap :=
+  match C01.parse TT0 po fold text with
+  | .root ks => parseTree preserve (unconvList ks)
+  | _ => .error .leafKv
+
+/-- **The exported text parses to the exported tree**: `Keyvalues.parse(VMF.export())` is
+`exportTree o m`, for every well-formed map, every option set, default parser options or any other
+with escapes on (`flags`, `single_line`, `newline_keys` arbitrary). -/
+theorem C06_text_tree (po : C01.ParseOpts) (hesc : po.allowEscapes = true) (hsb : po.singleBlock = false)
+    (hv : po.newlineValues = true) (fold : Char → List Char) (o : ExportOpts) (m : VMap) (h : MapOK1 m) :
+    C01.parse TT0 po fold (exportText o m) = .root (convList (exportTree o m)) :=
+  parse_exportText po hesc hsb hv fold o m h
+
+/-- **Round trip through the text**: `VMF.parse(Keyvalues.parse(vmf.export()), preserve_ids=True)`
+is the projected map. -/
+theorem C06_text (po : C01.ParseOpts) (hesc : po.allowEscapes = true) (hsb : po.singleBlock = false)
+    (hv : po.newlineValues = true) (fold : Char → List Char) (o : ExportOpts) (m : VMap) (h : MapOK1 m)
+    (hid : IdsOK m) :
+    parseVmfText po fold true (exportText o m) = .ok (project o m) := by
+  unfold parseVmfText
+  rw [C06_text_tree po hesc hsb hv fold o m h]
+  simp only [unconvList_conv]
+  exact C06_tree_roundtrip o m h hid
+
+/-- **The text is a fixed point**: export, parse the text, export again (without incrementing the
+map version a second time) gives the same text, character for character. -/
+theorem C06_text_fixed_point (po : C01.ParseOpts) (hesc : po.allowEscapes = true) (hsb : po.singleBlock = false)
+    (hv : po.newlineValues = true) (fold : Char → List Char) (o : ExportOpts) (m : VMap) (h : MapOK1 m)
+    (hid : IdsOK m) (hl : ∀ e ∈ m.ents, e.logicalPos ≠ []) (m2 : VMap)
+    (h2 : parseVmfText po fold true (exportText o m) = .ok m2) :
+    exportTree { o with incVersion := false } m2 = exportTree o m := by
+  rw [C06_text po hesc hsb hv fold o m h hid] at h2
+  cases h2
+  exact C06_project_export o m h hl
+
+/-- … however the text is delivered to the parser (a string, a list of chunks cut anywhere, a file
+read line by line): C03's chunk-independence composed with `C06_text_tree`. -/
+theorem C06_text_chunks (po : C01.ParseOpts) (hesc : po.allowEscapes = true) (hsb : po.singleBlock = false)
+    (hv : po.newlineValues = true) (fold : Char → List Char) (o : ExportOpts) (m : VMap) (h : MapOK1 m)
+    (cs : List Str) (hcs : cs.flatten = exportText o m) :
+    C01.parseChunks TT0 po fold cs = .root (convList (exportTree o m)) := by
+  unfold C01.parseChunks
+  rw [TokC.C03_run_eq_abstract, hcs]
+  exact C06_text_tree po hesc hsb hv fold o m h
 
 /-- **Renumbering (`preserve_ids=False`).** Whatever ids the file contains (repeated, zero,
 negative, missing), after a parse without `preserve_ids` the ids of every kind — visgroups, groups,
@@ -235,7 +311,7 @@ def exMapD : VMap :=
 theorem exSolid_ok : SolidOK1 exSolid = true := by decide
 theorem exEnt_ok (e : Ent) (h : e = exEnt ∨ e = { exEnt with id := 6, hidden := false, solids := [] }) : EntOK1 e := by
   rcases h with rfl | rfl <;>
-  exact { idNonneg := by decide, keyNames := by decide, keysDistinct := by unfold KeysDistinct; decide,
+  exact { idNonneg := by decide, keyNames := by decide, keyNl := by decide, keysDistinct := by unfold KeysDistinct; decide,
           fixes := by decide, fixIds := by decide, fixVars := by unfold VarsDistinct; decide,
           outs := by decide, solids := by decide, color := by decide }
 
@@ -243,7 +319,7 @@ theorem exMap_ok : MapOK1 exMap :=
   { format := rfl, instVis := by simp [exMap, InstVisOK],
     views := ⟨_, _, _, _, rfl, by decide, by decide, by decide, by decide⟩,
     vis := by decide,
-    spawn := { idNonneg := by decide, keyNames := by decide, keysDistinct := by unfold KeysDistinct; decide,
+    spawn := { idNonneg := by decide, keyNames := by decide, keyNl := by decide, keysDistinct := by unfold KeysDistinct; decide,
                fixes := by decide, fixIds := by decide, fixVars := by unfold VarsDistinct; decide,
                outs := by decide, solids := by decide, color := by decide },
     spawnVisible := rfl, groups := by decide,
@@ -274,7 +350,7 @@ theorem exMapD_ok : MapOK1 exMapD :=
       have : e = { exEnt with solids := [{ exSolid with sides := [{ exSide with disp := some exDisp }] }] } := by
         simpa [exMapD] using he
       subst this
-      exact { idNonneg := by decide, keyNames := by decide, keysDistinct := by unfold KeysDistinct; decide,
+      exact { idNonneg := by decide, keyNames := by decide, keyNl := by decide, keysDistinct := by unfold KeysDistinct; decide,
               fixes := by decide, fixIds := by decide, fixVars := by unfold VarsDistinct; decide,
               outs := by decide, solids := by decide, color := by decide } }
 
@@ -296,6 +372,11 @@ example : (parseTree true (exportTree { minimal := false, multiblend := true, in
     = .ok (exportTree { minimal := false, multiblend := true, incVersion := false } exMapD) :=
   C06_fixed_point { minimal := false, multiblend := true, incVersion := false } exMapD exMapD_ok exMapD_ids
     (by decide)
+
+example : parseVmfText {} (fun c => [c]) true
+      (exportText { minimal := false, multiblend := true, incVersion := false } exMapD)
+    = .ok (project { minimal := false, multiblend := true, incVersion := false } exMapD) :=
+  C06_text {} rfl rfl rfl _ _ exMapD exMapD_ok exMapD_ids
 
 example : IdsInjective (assignIds false { exMap with ents := [exEnt, exEnt, exEnt] }) :=
   assignIds_injective _
